@@ -42,8 +42,8 @@ ALLOWED_AXIOMS = {'propext', 'Classical.choice', 'Quot.sound'}
 TRUSTED_BASE = [
     'Lean 4.33 kernel (type-checks every theorem; thorough tier re-checks the .olean files with leanchecker)',
     'axioms: at most propext, Classical.choice, Quot.sound (audited with #print axioms on every run); no native_decide, bv_decide, sorry, admit, own axioms',
-    'hand-written Lean model lean/MidoModel/*.lean as a rendering of the Python source, tied to the working tree by the correspondence check of this run, by tables regenerated from the source (MidoModel/Generated/Tables.lean) and, for the parts named in this evidence under source_tie (message codec incl. decode_message/encode_message, checks, tokenizer, Parser class, VLQ, numeric meta specs and meta framing, tracks.py, the MIDI file writer and reader, ports.py, syx.py, parse_address, meta_charset, MidiFile.__iter__ / length / merged_track), by definitions TRANSLATED from the source text on this run (harness/py2lean.py -> MidoModel/Generated/Src*.lean) that are proved equal to the hand model (MidoProofs/SrcTie)',
-    'the translator harness/py2lean.py (syntax-directed, ~2000 lines), its per-function configuration units() (declared types of parameters and fields, loop fuel, constants such as debug=False, which callees are parameters: Message.from_bytes / build_meta_message / device methods of ports / the spec object of MetaMessage.bytes / message.bin() and hex() in syx.py / tick2second in MidiFile.__iter__ and length; files read are parameters, the file written is the result; a @property getter is a function of the fields it reads) and the operator semantics MidoModel/PySem.lean (value semantics for lists and dicts: aliasing is not modelled, decorated or rebound functions are refused; float("inf") as 0 in spec lengths; ports.py in its single-thread reading, with-lock blocks as their bodies); isinstance() tests are resolved from the declared parameter types; PySem is compared with CPython on every run',
+    'hand-written Lean model lean/MidoModel/*.lean as a rendering of the Python source, tied to the working tree by the correspondence check of this run, by tables regenerated from the source (MidoModel/Generated/Tables.lean) and, for the parts named in this evidence under source_tie (message codec incl. decode_message/encode_message, checks, tokenizer, Parser class, VLQ, numeric meta specs and meta framing, tracks.py, the MIDI file writer and reader, ports.py, syx.py, parse_address, meta_charset, MidiFile.__iter__ / length / merged_track, backend.py except __init__ / load / module), by definitions TRANSLATED from the source text on this run (harness/py2lean.py -> MidoModel/Generated/Src*.lean) that are proved equal to the hand model (MidoProofs/SrcTie)',
+    'the translator harness/py2lean.py (syntax-directed, ~2000 lines), its per-function configuration units() (declared types of parameters and fields, loop fuel, constants such as debug=False, which callees are parameters: Message.from_bytes / build_meta_message / device methods of ports / the spec object of MetaMessage.bytes / message.bin() and hex() in syx.py / the process environment, what the backend module defines and what its classes and get_devices do in backend.py / tick2second in MidiFile.__iter__ and length; files read are parameters, the file written is the result; a @property getter is a function of the fields it reads) and the operator semantics MidoModel/PySem.lean (value semantics for lists and dicts: aliasing is not modelled, decorated or rebound functions are refused; float("inf") as 0 in spec lengths; ports.py in its single-thread reading, with-lock blocks as their bodies); isinstance() tests are resolved from the declared parameter types; PySem is compared with CPython on every run',
     'the harness: generators, canonicalisation, diff, table extractor (harness/*.py)',
     'Lean compiler and runtime of the native driver mido_driver (its output, not the kernel, is diffed against the implementation)',
     'CPython 3.12 semantics of ints, lists, dicts, str methods, struct, codecs, threading.RLock, sockets',
@@ -236,13 +236,14 @@ SRC_TIE = {
     'C01': ['Codec', 'Msg'], 'C02': ['Codec', 'Msg', 'MsgDecision'], 'C03': ['Codec'],
     'C04': ['Tok', 'Parser', 'ParserSession', 'ParserResync'], 'C05': ['Tok', 'Parser', 'ParserSession'], 'C06': ['Tok', 'Parser', 'ParserSession', 'ParserResync'], 'C18': ['Tok', 'Sockets'], 'C19': ['Tok', 'Parser', 'Syx'],
     'C07': ['Vlq', 'VlqRead', 'Tracks', 'Writer', 'Reader', 'FileRoundTrip'], 'C08': ['Vlq', 'VlqRead', 'Writer', 'Reader', 'FileConformance'], 'C09': ['Meta', 'Vlq', 'MetaFrame', 'MetaRoundTrip'], 'C10': ['Ports', 'PortsIter'], 'C11': ['Ports', 'PortsIter', 'PortsLifecycle'],
-    'C12': ['Tracks', 'TracksMerge'], 'C13': ['Timing'], 'C17': ['Charset'], 'C16': ['Tracks', 'MergedTrack'],
+    'C12': ['Tracks', 'TracksMerge'], 'C13': ['Timing'], 'C17': ['Charset'], 'C16': ['Tracks', 'MergedTrack'], 'C20': ['Backend'],
 }
 SRC_TIE_FILES = {
     'Codec': ['mido/messages/encode.py', 'mido/messages/decode.py', 'mido/messages/checks.py'],
     'Parser': ['mido/parser.py', 'mido/tokenizer.py'],
     'MetaFrame': ['mido/midifiles/meta.py'],
     'Ports': ['mido/ports.py'],
+    'Backend': ['mido/backends/backend.py'],
     'Timing': ['mido/midifiles/midifiles.py'],
     'Sockets': ['mido/sockets.py'],
     'Syx': ['mido/syx.py', 'mido/parser.py', 'mido/tokenizer.py'],
